@@ -28,10 +28,13 @@ def sheet_case(seed):
     d = P.diff(G.shape_of_model(m0), G.expected_shape(ast))
     if d:
         return 'shape', 'sheet %r: %s' % (canon[:400], P.show(d, 200))
+    want, got = G.big_int_counts(ast), G.model_int_counts(sheet)
+    if want != got:
+        return 'shape', 'sheet %r: whole numbers beyond 2**53 written %r, exact values found in the model %r' % (canon[:400], want, got)
     m0n = [m for m in G.sheet_model(sheet, comments=False)]
     # (2) layout
     for lay in (G.Layout(rnd), G.Layout(rnd, comments=False), G.Layout(rnd, dense=True)):
-        t = G.render_sheet(ast, lay, G.Plain())
+        t = G.render_sheet(ast, lay, G.AtCase(rnd))
         d = P.diff(P.model_of(t), m0n)
         if d:
             return 'layout', 'the layout %r of %r gives another model: %s' % (t[:400], canon[:300], P.show(d, 160))
